@@ -173,7 +173,7 @@ def run(chk, P):
     r16_4(chk, P)
     chk.floor('R16.4', 1)
     r16_2(chk, P)
-    chk.floor('R16.2', 4)
+    chk.floor('R16.2', 2)
     r16_5(chk, P)
     chk.floor('R16.5', 3)
     import k4rules
